@@ -95,7 +95,30 @@ func deficientSigners(rt *rapid.T, c *chainkit.Chain, outsider neotest.Signer) [
 			opts = append(opts, []neotest.Signer{c.MultisigOf(m)})
 		}
 	}
+	if vh := c.Validators.ScriptHash(); vh != c.Alphabet.ScriptHash() && vh != c.Committee.ScriptHash() {
+		opts = append(opts, []neotest.Signer{c.Validators}) // consensus nodes of a chain with fewer validators than committee members
+	}
 	return opts[rapid.IntRange(0, len(opts)-1).Draw(rt, "deficientSigners")]
+}
+
+// pendingValidators is consumed by the next world constructor (balance, netmap, NNS worlds): the number of
+// consensus nodes of its chain, 0 = the whole committee.
+var pendingValidators int
+
+// drawValidators lets the next world run on a chain with fewer consensus nodes than committee (= Alphabet)
+// members in one case of three (1 of 3, 2 of 4, 4 of 7). No contract may notice: the Alphabet is the committee.
+func drawValidators(rt *rapid.T, h *ev.History, n int) {
+	pendingValidators = 0
+	if n >= 3 && rapid.IntRange(0, 2).Draw(rt, "fewerValidators") == 0 {
+		pendingValidators = n - 2 - n/7
+		h.Mark("committee-larger-than-the-validator-set")
+	}
+}
+
+func takeValidators() int {
+	v := pendingValidators
+	pendingValidators = 0
+	return v
 }
 
 // envInts reads a comma separated list of integers.
